@@ -251,5 +251,7 @@ def load_known():
     with open(KNOWN_FILE) as f:
         data = json.load(f)
     for e in data.get('findings', []):
+        if e.get('status') != 'known':
+            continue        # "fixed" entries are a record only: they suppress nothing
         out[(e['property'], e['rule'], e['file'], e['construct'], e['key'])] = e
     return out
